@@ -101,7 +101,7 @@ def gen(ctx):
                     strs.append(sd[:i] + c + sd[i + 1:])  # substitution
             if i < len(sd):
                 strs.append(sd[:i] + sd[i + 1:])      # deletion
-    n = 4000 if ctx.tier == "quick" else 80000
+    n = 4000 if ctx.tier == "quick" else 400000
     for _ in range(n):
         sd = rng.choice(seeds)
         b = list(sd)
@@ -118,7 +118,7 @@ def gen(ctx):
     strs += ["", "1", "12", "12:", "é1:00:00", "1é:00:00", "12:00:00é", "1979-05-27T07:32:00Zé", "١٢:٠٠:٠٠", "1979-05-27T07:32:00−" "07:00"]
     # values with in-range fields
     vals = []
-    nv = 3000 if ctx.tier == "quick" else 60000
+    nv = 3000 if ctx.tier == "quick" else 300000
     nss = [0, 1, 10, 100, 500000000, 120000, 999999999, 100000000, 123456789, 999999990, 1000]
     for _ in range(nv):
         y = rng.choice(years + [rng.randrange(10000)])
